@@ -450,7 +450,7 @@ Theorem C07_walker_contract : forall mkR body w, j5s_walk_gen mkR body = Ok w ->
 Proof. exact j5s_walk_gen_contract. Qed.
 Print Assumptions C07_walker_contract.
 
-(* the protovalidate rules of the walker model were written from exactly the (buf.validate.*) annotations the two .proto
+(* the protovalidate rules of the walker model were written from exactly the buf.validate annotations the two .proto
    files carry today, and each annotated field has a model rule or is one of the two stated exemptions *)
 Theorem C07_validate_rules_agree :
   vrule_sources = WalkSchemaGen.validate_annotations /\ forallb vrule_covered WalkSchemaGen.validate_annotations = true.
